@@ -58,7 +58,7 @@ func runC13fifo(run *mc.Run) int {
 	var samples []any
 	lat := map[string]float64{}
 	for _, which := range []string{"syslog-ingester", "auditlog-ingester"} {
-		for _, state := range []string{"waiting-for-writer", "idle-open-pipe", "partial-record-buffered", "after-some-records", "idle-after-slow-handoff"} {
+		for _, state := range []string{"waiting-for-writer", "idle-open-pipe", "partial-record-buffered", "after-some-records", "idle-after-slow-handoff", "idle-after-the-writer-was-replaced"} {
 			n++
 			name := which + "/" + state
 			path := filepath.Join(dir, fmt.Sprintf("c13-%d", n))
@@ -117,6 +117,22 @@ func runC13fifo(run *mc.Run) int {
 					for fionread(w) > 0 {
 						time.Sleep(time.Millisecond)
 					}
+				case "idle-after-the-writer-was-replaced":
+					// the log writer goes away after a record (end of stream) and another one connects: either the
+					// worker has ended at the end of the stream, or it serves the new writer - and then it is idle
+					// on THAT pipe handle when the cancellation comes
+					_, _ = w.WriteString("77 Failed password for a from 1.2.3.4 port 22 ssh2\n")
+					w.Close()
+					w = nil
+					time.Sleep(50 * time.Millisecond)
+					if fd, err := syscall.Open(path, syscall.O_WRONLY|syscall.O_NONBLOCK, 0); err == nil {
+						_ = syscall.SetNonblock(fd, false)
+						w = os.NewFile(uintptr(fd), path)
+						_, _ = w.WriteString("78 Failed password for b from 1.2.3.4 port 22 ssh2\n")
+						for until := time.Now().Add(2 * time.Second); fionread(w) > 0 && time.Now().Before(until); {
+							time.Sleep(time.Millisecond)
+						}
+					}
 				case "after-some-records":
 					_, _ = w.WriteString("77 Failed password for a from 1.2.3.4 port 22 ssh2\n77 Failed password for b from 1.2.3.4 port 22 ssh2\n")
 					for fionread(w) > 0 || delivered() < 2 {
@@ -160,7 +176,7 @@ func runC13fifo(run *mc.Run) int {
 		}
 	}
 	cov := mc.Coverage{Level: "fault_enumeration", Evaluations: n, Distinct: n, Exhaustive: true, Samples: samples,
-		Rule:  "cancellation injected into SyslogIngester.Ingest and AuditLogIngester.Ingest on real FIFOs in each blocking state: waiting for a writer to open the pipe, blocked reading an idle open pipe, holding a partial record, idle after some records, idle after a back-pressure episode in which downstream accepted nothing for 1.5 s (thorough 6 s); the worker must return within the bound and deliver nothing afterwards. distinct_nontrivial = cells (all are blocking states)",
+		Rule:  "cancellation injected into SyslogIngester.Ingest and AuditLogIngester.Ingest on real FIFOs in each blocking state: waiting for a writer to open the pipe, blocked reading an idle open pipe, holding a partial record, idle after some records, idle after a back-pressure episode in which downstream accepted nothing for 1.5 s (thorough 6 s), idle after the first writer left and a second one connected (if the worker serves it); the worker must return within the bound and deliver nothing afterwards. distinct_nontrivial = cells (all are blocking states)",
 		Extra: map[string]any{"bound_s": bound.Seconds(), "latency_s": lat}}
 	cov.Assumptions = []string{"real time: the bound (5 s) is three orders of magnitude above observed latencies; the OS scheduler is not controlled"}
 	return run.Finish(cov)
